@@ -51,4 +51,5 @@ b07ea5c C05
 c49c330 C20
 21f8a1e C10
 7a3b114 C16
+70eb3db C16
 LIST
